@@ -55,7 +55,9 @@ def indexed_file(draw, tier, max_records=30, min_records=1):
                 pos += len(l) + 1
             cuts = sorted(set(draw(st.lists(st.sampled_from(starts[1:]), min_size=1, max_size=4))))
         comp = {"cuts": cuts, "empty": draw(st.booleans()),
-                "suffix": draw(st.sampled_from([".gz", ".gz", ".bgz", ""]))}  # compression is detected by content, not by name
+                "suffix": draw(st.sampled_from([".gz", ".gz", ".bgz", ""])),  # compression is detected by content, not by name
+                # gzip header bytes the BGZF format leaves to the writer (htslib: 0, 0, 255)
+                "header": draw(st.sampled_from([None, None, None, [1700000000, 2, 3], [0, 4, 0], [12345, 0, 255]]))}
     return g, {
         "gfa": gen_graph.gfa_text(g, with_seq=False, order_seed=draw(st.integers(0, 99))),
         "gaf": lines,
@@ -72,7 +74,7 @@ def materialize(d, case, name="in.gaf"):
     data = "".join(l + eol for l in case["gaf"]).encode()
     if case.get("bgzf"):
         path = d + "/" + name + case["bgzf"].get("suffix", ".gz")
-        table = bgzf.write_bgzf(path, data, case["bgzf"]["cuts"], case["bgzf"]["empty"])
+        table = bgzf.write_bgzf(path, data, case["bgzf"]["cuts"], case["bgzf"]["empty"], header=case["bgzf"].get("header"))
     else:
         path = d + "/" + name
         with open(path, "wb") as f:
@@ -130,6 +132,8 @@ def file_classes(case, table):
     cl = ["stable" if case["stable"] else "unstable", "bgzf" if case.get("bgzf") else "plain"]
     if case.get("bgzf") and case["bgzf"].get("suffix", ".gz") != ".gz":
         cl.append("bgzf_file_not_named_gz")
+    if case.get("bgzf") and case["bgzf"].get("header"):
+        cl.append("bgzf_header_not_htslib_default")
     if case.get("crlf"):
         cl.append("crlf_line_endings")
     if "SN:Z:chr1_" in case["gfa"] or "\ts2" in case["gfa"] and "SO:i:1" in case["gfa"] and len(case["gfa"]) > 3000 and "sniffles" in case["gfa"]:
